@@ -4,6 +4,8 @@
    matrixValidateCertsExt      matrixssl/matrixssl.c   2343-2644   (expectedName = NULL: names are C05)
    checkPathLenConstraint      matrixssl/matrixssl.c   2268-2300
    validateDateRange           crypto/keyformat/x509.c 5072-5145   (as the verdict it leaves in authFailFlags)
+   psCRL_determineRevokedStatus, internalGetCrlForCert, internalCrlIsRevoked, psX509AuthenticateCRL,
+   psCRL_Insert / psCRL_Update  crypto/keyformat/crl.c 75-106, 262-332, 336-365, 406-432, 461-505, 551-634, 713-835
    parse-time gate             crypto/keyformat/x509.c 786-822 (version), 1186-1195 (sigAlg match),
                                1224-1386 (hash selection, SHA-1 rule), 4846-4870 (unknown critical extension)
 
@@ -34,7 +36,8 @@ Record cert := mkCert {
   c_eku_crit : bool; (* critFlags & EXT_CRIT_FLAG(id_ce_extKeyUsage) *)
   c_ak_len : N; c_ak_val : N;   (* extensions.ak.keyLen / keyId *)
   c_sk_len : N; c_sk_val : N;   (* extensions.sk.len / id *)
-  c_rev : Z;         (* revokedStatus that psCRL_determineRevokedStatus reports for this certificate *)
+  c_serial : list N; (* serialNumber / serialNumberLen: the content octets of the INTEGER, as parsed *)
+  c_crldist : bool;  (* extensions.crlDist != NULL *)
   c_pre3280 : Z;     (* issuedBefore(RFC_3280, cert): 1 yes, 0 no, negative = date does not parse *)
   c_date_now : Z;    (* validateDateRange now: 0 in range, positive = sets the DATE flag, negative = error *)
   c_fl0 : N;         (* authFailFlags at entry (parse-time DATE flag lives here) *)
@@ -49,8 +52,21 @@ Definition reset (c : cert) : cst := mkCst 0 (c_fl0 c).
 
 Definition has_flag (f m : N) : bool := negb (N.land f m =? 0)%N.
 
+(* abstract psX509Crl_t as the validator sees it; the revoked list is what psX509ParseCRL stored *)
+Record crl := mkCrl {
+  r_id : nat;                 (* identity (position in the case), not read by the code *)
+  r_iss : N;                  (* issuer.hash *)
+  r_tbs : N; r_sig : N; r_alg : N;   (* sigHash, sig, sigAlg *)
+  r_auth : bool;              (* authenticated *)
+  r_expired : bool;           (* expired (sticky once set) *)
+  r_next : Z;                 (* nextUpdateTest(nextUpdate) now: 0 fine (or no nextUpdate), negative = past / unparsable *)
+  r_serials : list (list N)   (* revoked: userCertificate content octets, in list order *)
+}.
+(* the global CRL cache g_CRL in list order, and the log of lookup results (newest first) *)
+Record kst := mkK { k_cache : list crl; k_log : list Z }.
+
 Inductive found := FNone | FChain (i : nat) | FAnchor (i : nat).
-Record vres := mkRes { v_rc : Z; v_states : list cst; v_found : found }.
+Record vres := mkRes { v_rc : Z; v_states : list cst; v_found : found; v_k : kst }.
 
 Section Validator.
 Variable sig_ok : N -> N -> N -> N -> bool.   (* key, tbs digest, signature bytes, algorithm *)
@@ -87,15 +103,92 @@ Definition ku_check (ic : cert) (s : cst) : option Z * cst :=
     else (None, s)
   else (None, s).
 
+(* ---- the CRL cache (crl.c) ------------------------------------------------------------------ *)
+Fixpoint serial_eq (a b : list N) : bool :=      (* crl.c 490-493: same length, same octets *)
+  match a, b with
+  | [], [] => true
+  | x :: a', y :: b' => (x =? y)%N && serial_eq a' b'
+  | _, _ => false
+  end.
+
+Definition set_auth (r : crl) (b : bool) : crl :=
+  mkCrl (r_id r) (r_iss r) (r_tbs r) (r_sig r) (r_alg r) b (r_expired r) (r_next r) (r_serials r).
+Definition set_expired (r : crl) : crl :=
+  mkCrl (r_id r) (r_iss r) (r_tbs r) (r_sig r) (r_alg r) (r_auth r) true (r_next r) (r_serials r).
+
+(* psX509AuthenticateCRL(CA, CRL) (crl.c 780-835, internalMatchIssuer 713-769): the flag is reset
+   first; cRLSign, issuer name, signature.  No test that CA is a CA or is itself trusted. *)
+Definition crl_authenticate (ca : cert) (r : crl) : Z * crl :=
+  let r0 := set_auth r false in
+  if (N.land (c_ku ca) n_KEY_USAGE_CRL_SIGN =? 0)%N &&
+     negb (f_ALLOW_CRL_ISSUERS_WITHOUT_KEYUSAGE && (c_ku ca =? 0)%N) then (c_PS_CERT_AUTH_FAIL_EXTENSION, r0)
+  else if negb (r_iss r =? c_subj ca)%N then (c_PS_CERT_AUTH_FAIL_DN, r0)
+  else if negb (sig_ok (c_key ca) (r_tbs r) (r_sig r) (r_alg r)) then (c_PS_CERT_AUTH_FAIL_SIG, r0)
+  else (c_PS_SUCCESS, set_auth r true).
+
+Definition crl_status (revoked authenticated : bool) : Z :=
+  match revoked, authenticated with
+  | false, true => c_CRL_CHECK_PASSED_AND_AUTHENTICATED
+  | false, false => c_CRL_CHECK_PASSED_BUT_NOT_AUTHENTICATED
+  | true, true => c_CRL_CHECK_REVOKED_AND_AUTHENTICATED
+  | true, false => c_CRL_CHECK_REVOKED_BUT_NOT_AUTHENTICATED
+  end.
+
+(* psCRL_determineRevokedStatus(sc) with sc->next = parent (crl.c 551-634): the FIRST cached CRL
+   whose issuer name equals the certificate's issuer name decides (internalGetCrlForCert 406-432);
+   it is marked expired when nextUpdate is over; an unauthenticated one is first offered to the
+   certificate's chain parent for authentication; then the serial is looked up (461-505). *)
+Fixpoint crl_lookup (K : list crl) (sc : cert) (parent : option cert) : Z * list crl :=
+  match K with
+  | [] => (if c_crldist sc then c_CRL_CHECK_EXPECTED else c_CRL_CHECK_NOT_EXPECTED, [])
+  | r :: K' =>
+      if (r_iss r =? c_iss sc)%N then
+        let r1 := if (r_next r <? 0)%Z then set_expired r else r in
+        if r_expired r1 then (c_CRL_CHECK_CRL_EXPIRED, r1 :: K')
+        else
+          let r2 := match parent with
+                    | Some p => if r_auth r1 then r1 else snd (crl_authenticate p r1)
+                    | None => r1
+                    end in
+          (crl_status (existsb (serial_eq (c_serial sc)) (r_serials r2)) (r_auth r2), r2 :: K')
+      else let (st, K'') := crl_lookup K' sc parent in (st, r :: K'')
+  end.
+
+(* psCRL_Insert (75-124) and psCRL_Update(crl, 0) (293-332): Update first takes the first cached CRL
+   with the same issuer name out of the list, whatever its authentication state *)
+Fixpoint remove_first_iss (i : N) (K : list crl) : list crl :=
+  match K with
+  | [] => []
+  | r :: K' => if (r_iss r =? i)%N then K' else r :: remove_first_iss i K'
+  end.
+Definition crl_insert (r : crl) (K : list crl) : list crl := K ++ [r].
+Definition crl_update (r : crl) (K : list crl) : list crl := remove_first_iss (r_iss r) K ++ [r].
+
+(* how a case loads its cache: optional psX509AuthenticateCRL by a given certificate, then Update or Insert.
+   Result: cache, the psX509AuthenticateCRL return codes, the CRLs that Update displaced *)
+Fixpoint load_crls (l : list (crl * option cert * bool)) (K : list crl) (rcs : list Z) (gone : list crl)
+  : list crl * list Z * list crl :=
+  match l with
+  | [] => (K, rev rcs, gone)
+  | (r, by_, up) :: l' =>
+      let '(rcs', r') := match by_ with Some ca => let (rc, r1) := crl_authenticate ca r in (rc :: rcs, r1) | None => (rcs, r) end in
+      let gone' := if up then match find (fun x => (r_iss x =? r_iss r')%N) K with Some x => x :: gone | None => gone end else gone in
+      load_crls l' (if up then crl_update r' K else crl_insert r' K) rcs' gone'
+  end.
+
+Definition bc_fail (self : bool) (ic : cert) : bool :=
+  (c_ver ic >? 1)%Z && negb (c_ca ic =? c_CA_TRUE)%Z && negb self.
+
 (* one iteration of the while (ic) loop, x509.c 5961-6195.  [self] = (sc == ic), the self-signed
-   test.  Some rc = early return with rc; None = fell through to the loop control. *)
-Definition auth_one (fx self : bool) (sc ic : cert) (s : cst) : option Z * cst :=
-  if (c_ver ic >? 1)%Z && negb (c_ca ic =? c_CA_TRUE)%Z && negb self then
+   test.  [rs] is what psCRL_determineRevokedStatus(sc) answers at line 6029 (only consulted once the
+   CA flag and the names have matched).  Some rc = early return with rc; None = fell through. *)
+Definition auth_one (fx self : bool) (sc ic : cert) (s : cst) (rs : Z) : option Z * cst :=
+  if bc_fail self ic then
     (Some c_PS_CERT_AUTH_FAIL_BC, set_st s c_PS_CERT_AUTH_FAIL_BC)
   else if negb (c_iss sc =? c_subj ic)%N then
     if shortcut fx self sc ic then (None, tail s)
     else (Some c_PS_CERT_AUTH_FAIL_DN, set_st s c_PS_CERT_AUTH_FAIL_DN)
-  else if f_USE_CRL && (c_rev sc =? c_CRL_CHECK_REVOKED_AND_AUTHENTICATED)%Z then
+  else if f_USE_CRL && (rs =? c_CRL_CHECK_REVOKED_AND_AUTHENTICATED)%Z then
     (Some c_PS_CERT_AUTH_FAIL_REVOKED, set_st s c_PS_CERT_AUTH_FAIL_REVOKED)
   else if negb (sig_ok (c_key ic) (c_tbs sc) (c_sig sc) (c_alg sc)) then
     (Some c_PS_CERT_AUTH_FAIL_SIG, set_st s c_PS_CERT_AUTH_FAIL_SIG)
@@ -105,32 +198,43 @@ Definition auth_one (fx self : bool) (sc ic : cert) (s : cst) : option Z * cst :
     | (None, s2) => (None, tail s2)
     end.
 
+(* the same iteration with the cache consultation in place: it happens (and may change the cache)
+   exactly when the CA-flag test and the name comparison have been passed *)
+Definition reaches_crl (self : bool) (sc ic : cert) : bool :=
+  negb (bc_fail self ic) && (c_iss sc =? c_subj ic)%N.
+Definition auth_one_k (fx self : bool) (sc ic : cert) (s : cst) (parent : option cert) (k : kst)
+  : option Z * cst * kst :=
+  if f_USE_CRL && reaches_crl self sc ic then
+    let (rs, K') := crl_lookup (k_cache k) sc parent in
+    (auth_one fx self sc ic s rs, mkK K' (rs :: k_log k))
+  else (auth_one fx self sc ic s 0, k).
+
 (* ---- psX509AuthenticateCert with issuerCert == NULL: the chain authenticates itself and the
    parent-most certificate is tested as self-signed (x509.c 5931-5950, 6199-6218) *)
-Fixpoint cm_walk (fx : bool) (sc : cert) (rest : list cert) (idx : nat) : Z * list cst * found :=
+Fixpoint cm_walk (fx : bool) (sc : cert) (rest : list cert) (idx : nat) (k : kst) : Z * list cst * found * kst :=
   match rest with
-  | [] => match auth_one fx true sc sc (reset sc) with
-          | (Some rc, s') => (rc, [s'], FNone)
-          | (None, s') => (c_PS_SUCCESS, [s'], FChain idx)
+  | [] => match auth_one_k fx true sc sc (reset sc) None k with
+          | (Some rc, s', k') => (rc, [s'], FNone, k')
+          | (None, s', k') => (c_PS_SUCCESS, [s'], FChain idx, k')
           end
   | ic :: rest' =>
-          match auth_one fx false sc ic (reset sc) with
-          | (Some rc, s') => (rc, s' :: map reset rest, FNone)
-          | (None, s') => let '(rc, l, f) := cm_walk fx ic rest' (S idx) in (rc, s' :: l, f)
+          match auth_one_k fx false sc ic (reset sc) (Some ic) k with
+          | (Some rc, s', k') => (rc, s' :: map reset rest, FNone, k')
+          | (None, s', k') => let '(rc, l, f, k'') := cm_walk fx ic rest' (S idx) k' in (rc, s' :: l, f, k'')
           end
   end.
 
 (* psX509AuthenticateCert(subjectCert = chain, issuerCert): both calling conventions *)
-Definition auth_api (fx : bool) (chain : list cert) (issuer : option cert) : vres :=
+Definition auth_api (fx : bool) (chain : list cert) (issuer : option cert) (k : kst) : vres :=
   match chain with
-  | [] => mkRes c_PS_ARG_FAIL [] FNone
+  | [] => mkRes c_PS_ARG_FAIL [] FNone k
   | sc :: rest =>
     match issuer with
-    | None => let '(rc, l, f) := cm_walk fx sc rest 0 in mkRes rc l f
+    | None => let '(rc, l, f, k') := cm_walk fx sc rest 0 k in mkRes rc l f k'
     | Some ic =>
-        match auth_one fx false sc ic (init sc) with
-        | (Some rc, s') => mkRes rc (s' :: map init rest) FNone
-        | (None, s') => mkRes c_PS_SUCCESS (s' :: map init rest) (FAnchor 0)
+        match auth_one_k fx false sc ic (init sc) (hd_error rest) k with
+        | (Some rc, s', k') => mkRes rc (s' :: map init rest) FNone k'
+        | (None, s', k') => mkRes c_PS_SUCCESS (s' :: map init rest) (FAnchor 0) k'
         end
     end
   end.
@@ -165,22 +269,22 @@ Fixpoint reval_chain (cs : list cert) : option Z * list cst :=
                                    states are those of the certificates below it.
    [idx] is the position of [sc]; [f] the current value of *foundIssuer (every successful
    psX509AuthenticateCert call stores its issuer there). *)
-Fixpoint walk (fx : bool) (pl : Z) (sc : cert) (s : cst) (rest : list cert) (idx : nat) (f : found)
-  : (Z * list cst * found) + (Z * list cst * cert) :=
+Fixpoint walk (fx : bool) (pl : Z) (sc : cert) (s : cst) (rest : list cert) (idx : nat) (f : found) (k : kst)
+  : ((Z * list cst * found) + (Z * list cst * cert)) * kst :=
   match rest with
-  | [] => inr (pl, [], sc)
+  | [] => (inr (pl, [], sc), k)
   | ic :: rest' =>
-      (* psX509AuthenticateCert(sc, ic) first does issuerCert->authStatus = PS_FALSE *)
-      let (r, s') := auth_one fx false sc ic s in
+      (* psX509AuthenticateCert(sc, ic) first does issuerCert->authStatus = PS_FALSE; sc->next is ic *)
+      let '(r, s', k') := auth_one_k fx false sc ic s (Some ic) k in
       let rc := match r with Some rc => rc | None => c_PS_SUCCESS end in
       let f' := match r with Some _ => f | None => FChain (S idx) end in
-      if (rc <? c_PS_SUCCESS)%Z then inl (rc, s' :: reset ic :: map init rest', f')
+      if (rc <? c_PS_SUCCESS)%Z then (inl (rc, s' :: reset ic :: map init rest', f'), k')
       else if negb (pathlen_check fx ic sc pl) then
-        inl (c_PS_CERT_AUTH_FAIL_PATH_LEN, set_st s' c_PS_CERT_AUTH_FAIL_PATH_LEN :: reset ic :: map init rest', f')
+        (inl (c_PS_CERT_AUTH_FAIL_PATH_LEN, set_st s' c_PS_CERT_AUTH_FAIL_PATH_LEN :: reset ic :: map init rest', f'), k')
       else
-        match walk fx (pl + 1) ic (reset ic) rest' (S idx) f' with
-        | inl (rc', l, f'') => inl (rc', s' :: l, f'')
-        | inr (pl', l, top) => inr (pl', s' :: l, top)
+        match walk fx (pl + 1) ic (reset ic) rest' (S idx) f' k' with
+        | (inl (rc', l, f''), k'') => (inl (rc', s' :: l, f''), k'')
+        | (inr (pl', l, top), k'') => (inr (pl', s' :: l, top), k'')
         end
   end.
 
@@ -190,23 +294,24 @@ Definition eku_bad (leaf : cert) : bool :=
 (* ---- loop over the trusted issuers (matrixssl.c 2470-2643, expectedName == NULL).
    Result: rc, state of [sc], whether the leaf's EKU failure must be recorded, foundIssuer *)
 Fixpoint anchor_loop (fx rv : bool) (leaf : cert) (pl : Z) (sc : cert) (s : cst)
-         (anchors : list cert) (i : nat) : Z * cst * bool * found :=
+         (anchors : list cert) (i : nat) (k : kst) : Z * cst * bool * found * kst :=
   match anchors with
-  | [] => (c_PS_CERT_AUTH_FAIL, s, false, FNone)
+  | [] => (c_PS_CERT_AUTH_FAIL, s, false, FNone, k)
   | a :: more =>
-      let (r, s1) := auth_one fx false sc a (set_st s 0) in
+      (* sc is the parent-most certificate of the chain: sc->next == NULL *)
+      let '(r, s1, k') := auth_one_k fx false sc a (set_st s 0) None k in
       let rc := match r with Some rc => rc | None => c_PS_SUCCESS end in
       if (rc =? c_PS_SUCCESS)%Z then
         if negb (pathlen_check fx a sc pl) then
-          (c_PS_CERT_AUTH_FAIL_PATH_LEN, set_st s1 c_PS_CERT_AUTH_FAIL_PATH_LEN, false, FAnchor i)
-        else if rv && (c_date_now a <? 0)%Z then (c_PS_PARSE_FAIL, s1, false, FAnchor i)
+          (c_PS_CERT_AUTH_FAIL_PATH_LEN, set_st s1 c_PS_CERT_AUTH_FAIL_PATH_LEN, false, FAnchor i, k')
+        else if rv && (c_date_now a <? 0)%Z then (c_PS_PARSE_FAIL, s1, false, FAnchor i, k')
         else if rv && has_flag (if (0 <? c_date_now a)%Z then N.lor (c_fl0 a) n_PS_CERT_AUTH_FAIL_DATE_FLAG else c_fl0 a)
                                n_PS_CERT_AUTH_FAIL_DATE_FLAG then
-          (c_PS_CERT_AUTH_FAIL_EXTENSION, set_st s1 c_PS_CERT_AUTH_FAIL_EXTENSION, false, FAnchor i)
-        else if eku_bad leaf then (c_PS_CERT_AUTH_FAIL_EXTENSION, s1, true, FAnchor i)
-        else (rc, s1, false, FAnchor i)
-      else if (rc =? c_PS_MEM_FAIL)%Z then (rc, s1, false, FNone)
-      else anchor_loop fx rv leaf pl sc s1 more (S i)
+          (c_PS_CERT_AUTH_FAIL_EXTENSION, set_st s1 c_PS_CERT_AUTH_FAIL_EXTENSION, false, FAnchor i, k')
+        else if eku_bad leaf then (c_PS_CERT_AUTH_FAIL_EXTENSION, s1, true, FAnchor i, k')
+        else (rc, s1, false, FAnchor i, k')
+      else if (rc =? c_PS_MEM_FAIL)%Z then (rc, s1, false, FNone, k')
+      else anchor_loop fx rv leaf pl sc s1 more (S i) k'
   end.
 
 Definition eku_apply (l : list cst) : list cst :=
@@ -216,24 +321,24 @@ Definition eku_apply (l : list cst) : list cst :=
   end.
 
 (* ---- matrixValidateCertsExt(subjectCerts = chain, issuerCerts = anchors, expectedName = NULL,
-   opts.flags & VCERTS_FLAG_REVALIDATE_DATES = rv).  An empty subject chain is a NULL dereference
+   opts.flags & VCERTS_FLAG_REVALIDATE_DATES = rv) on the CRL cache k.  An empty subject chain is a NULL dereference
    in the C code when issuers are given; the model answers PS_ARG_FAIL for it (never generated). *)
-Definition validate (fx rv : bool) (chain anchors : list cert) : vres :=
+Definition validate (fx rv : bool) (chain anchors : list cert) (k : kst) : vres :=
   match chain with
-  | [] => mkRes c_PS_ARG_FAIL [] FNone
+  | [] => mkRes c_PS_ARG_FAIL [] FNone k
   | leaf :: rest =>
     match (if rv then reval_chain chain else (None, map init chain)) with
-    | (Some rc, sts) => mkRes rc sts FNone
+    | (Some rc, sts) => mkRes rc sts FNone k
     | (None, _) =>
       match anchors with
-      | [] => let '(rc, l, f) := cm_walk fx leaf rest 0 in mkRes rc l f
+      | [] => let '(rc, l, f, k') := cm_walk fx leaf rest 0 k in mkRes rc l f k'
       | _ :: _ =>
-        match walk fx 0 leaf (init leaf) rest 0 FNone with
-        | inl (rc, l, f) => mkRes rc l f
-        | inr (pl, below, top) =>
-            let '(rc, stop, eku, f) := anchor_loop fx rv leaf pl top (init top) anchors 0 in
+        match walk fx 0 leaf (init leaf) rest 0 FNone k with
+        | (inl (rc, l, f), k') => mkRes rc l f k'
+        | (inr (pl, below, top), k') =>
+            let '(rc, stop, eku, f, k'') := anchor_loop fx rv leaf pl top (init top) anchors 0 k' in
             let l := below ++ [stop] in
-            mkRes rc (if eku then eku_apply l else l) f
+            mkRes rc (if eku then eku_apply l else l) f k''
         end
       end
     end
